@@ -10,6 +10,7 @@ recipe, None, or a tuple of recipes.
 from __future__ import annotations
 
 import enum
+import functools
 from pathlib import Path
 from dataclasses import dataclass, field
 from typing import Any, Literal, Union
@@ -254,7 +255,7 @@ def _scan_module_state() -> None:
                 continue
             if type(val) in (dict, list, set) and (name, attr) not in _STATE_BASELINE:
                 _STATE_BASELINE[(name, attr)] = (val, type(val)(val))
-            elif hasattr(val, "cache_clear") and hasattr(val, "cache_info") and name != "pyoak.typing" and val not in _STATE_LRU:
+            elif isinstance(val, functools._lru_cache_wrapper) and name != "pyoak.typing" and not any(val is x for x in _STATE_LRU):
                 _STATE_LRU.append(val)
 
 
